@@ -106,4 +106,12 @@ def bufStepHead (depth : Nat) (v : Ver) (buf chunk : Bytes) : Bytes × Option (N
       | none => ([], none)
   else (b, none)
 
+/-- the 1.1 variant that first throws away its buffer up to and including the first `]]>]]>`
+(negative witness for `v11_ignores_v10_marker`) -/
+def bufStepDrop10 (buf chunk : Bytes) : Bytes × Option (Nat × Bytes) :=
+  let b := buf ++ chunk
+  match afterFirst delim10 b with
+  | some rest => bufStep .v11 rest []
+  | none => bufStep .v11 b []
+
 end Scrapli.Netconf.Store
